@@ -43,14 +43,19 @@ PATTERNS = [
     r"(?P<y>\d{4})(?P<md>\d{4})",
     r"^(?P<dir>\w+)/",
     r"^(?P<name>[a-z]+)_(?P<date>\d{8})",
+    r"^t/(?P<num>[0-9]+)\.zo$",
+    r"^t/(?P<num>\d+)",
 ]
 TARGETS = [
     "20240102.zo", "20240102", "2024/20240102.zo", "2023/20231231.zo", "proj_foo.zo", "proj_foo",
     "notes/foo.zo", "notes/deep/foo.zo", "foo", "foo.zo", "20240229_done.zo", "20240229_habit",
     "log_20240301.zo", "misc.txt", "a/b_c.zo", "19991231.zo", "work/20240102.zo",
+    # numeric captures that are no dates (ticket numbers), look like dates but are none, or are dates
+    "t/123456.zo", "t/2000113.zo", "t/1234567.zo", "t/20241340.zo", "t/20240230.zo", "t/20240229.zo", "t/20230229.zo",
+    "t/00000101.zo", "t/240315", "t/20240101", "t/123456789.zo",
 ]
 TEMPLATE_PATHS = ["t1.zot", "t2.zot", "tmpl/day.zot", "work/day.zot", "home/day.zot", "tmpl/t1.zot"]
-_VARS = ["name", "kind", "dir", "y", "md", "u1", "u2", "parent"]
+_VARS = ["name", "kind", "dir", "y", "md", "u1", "u2", "parent", "num", "num"]
 _DATE_FMTS = ["%Y-%m-%d", "%Y/%Y%m%d", "%d", "%Y%m%d", "%m.%y"]
 _LITERALS = ["o todo item", "- a note #tag", "plain text line", "", "  * bullet", "## ", "x P1 done", "line with # hash"]
 
@@ -114,6 +119,17 @@ def _seg_src(seg):
 _DATE_RE = re.compile(r"^[0-9]{4}[01][0-9][0-3][0-9]$")
 
 
+def _is_date_like(v) -> bool:
+    """Eight digits that are a calendar date (own calendar; years 0001-9999)."""
+    if not isinstance(v, str) or not _DATE_RE.match(v):
+        return False
+    y, m, d = int(v[:4]), int(v[4:6]), int(v[6:8])
+    if y < 1 or not 1 <= m <= 12 or d < 1:
+        return False
+    leap = y % 4 == 0 and (y % 100 != 0 or y % 400 == 0)
+    return d <= [31, 29 if leap else 28, 31, 30, 31, 30, 31, 31, 30, 31, 30, 31][m - 1]
+
+
 def _fmt_date(v: str, f: str) -> str:
     y, m, d = v[:4], v[4:6], v[6:8]
     return f.replace("%Y", y).replace("%m", m).replace("%d", d).replace("%y", y[2:])
@@ -139,7 +155,7 @@ def mini_render(t, var_map: dict) -> str:
                     v = var_map.get(seg[1])
                     if v is None:
                         s += ""
-                    elif _DATE_RE.match(v):
+                    elif _is_date_like(v):
                         s += f"{v[:4]}-{v[4:6]}-{v[6:8]} 00:00:00"
                     else:
                         s += v
@@ -185,7 +201,7 @@ def _case(draw):
         })
     user_vars = {}
     for k in draw(st.lists(st.sampled_from(["u1", "u2", "name", "kind", "y"]), max_size=3, unique=True)):
-        user_vars[k] = draw(st.sampled_from(["alpha", "Beta_2", "20240315", "x-y", "7"]))
+        user_vars[k] = draw(st.sampled_from(["alpha", "Beta_2", "20240315", "x-y", "7", "20241340", "123456"]))
     route = draw(st.sampled_from(["api", "api", "cli-init", "cli-edit", "cli-open"]))
     explicit = None
     # (`zorg template init -t X` always dies in argument validation -- nargs=1 yields a list --
@@ -256,9 +272,14 @@ def check(case, rec: Rec) -> None:
                 plan.append((rel, "nothing", None))
                 rec.label("no-match")
                 continue
-            if any(_DATE_RE.match(v or "") for v in vars_.values()):
+            if any(_is_date_like(v) for v in vars_.values()):
                 nontriv = True
                 rec.label("date-like-var")
+            if any(_DATE_RE.match(v or "") and not _is_date_like(v) for v in vars_.values()):
+                nontriv = True
+                rec.label("eight-digits-no-date")
+            if any(re.fullmatch(r"[0-9]{6,7}|[0-9]{9}", v or "") for v in vars_.values()):
+                rec.label("numeric-capture-no-date")
             text2 = mini_render(tmpl_objs[chosen], vars_)
             with rec.sut("render"):
                 env.fresh_process()
